@@ -28,6 +28,8 @@ def partition(labels):
 
 def unperm(vec, p):
     """vec is indexed by the nodes of pG (node i of G is p[i] in pG): return it indexed by the nodes of G."""
+    if len(vec) != len(p):
+        return vec      # not a per-node output of this side (e.g. empty column outputs): compared as is
     return [vec[p[i]] for i in range(len(p))]
 
 
